@@ -190,9 +190,8 @@ CLAIMED = {
             'used after one of its unpacked endpoints was recomputed and before it is rebuilt (C-R9, '
             'sa/stale_pack.py); mpi_overlap (excluded strip of gamma) is the intersection predicate on all 26 '
             'endpoint orderings; rectangle functions outside the audited endpoint-level set stay compositions '
-            '(C-R13, catches the two seeded cosh rewrites); (
-            'sa/stale_pack.py).  NOT decided: corner selection, the excluded region of gamma, value-level '
-            'tightenings (seeded change C15-2 is of that kind and is not detected).',
+            '(C-R13, catches the two seeded cosh rewrites).  NOT decided: corner selection inside the '
+            'audited endpoint-level functions, the excluded region of gamma, value-level tightenings.',
             'Trusts C14\'s real interval functions and the monotonicity table.',
             'DESIGN.md section 2, Engine C'),
     'C16': ('F-order-abs',
